@@ -293,7 +293,7 @@ def run_fault(run):
     if "DRIVER-DONE" not in out:
         raise vlib.Inconclusive("dbdrv TestFaultEnum died:\n" + out[-3000:])
     enum_cases = int(out.split("DRIVER-DONE")[1].split("probes=")[1].split()[0])
-    env = dict(VERIF_OUT=tdir, VERIF_SEED=str(run.seed), VERIF_SCRIPTS=str(9 if quick else 90), VERIF_STEPS=str(40 if quick else 60))
+    env = dict(VERIF_OUT=tdir, VERIF_SEED=str(run.seed), VERIF_SCRIPTS=str(12 if quick else 120), VERIF_STEPS=str(40 if quick else 60))
     code, out2 = vlib.run_driver(binp, "TestFault", env=env, timeout=3000)
     if "DRIVER-DONE" not in out2:
         raise vlib.Inconclusive("dbdrv TestFault died (a panic under an injected fault is itself a C43 failure; see output):\n" + out2[-4000:])
